@@ -27,7 +27,13 @@ contract('gnpy.core.science_utils.NliSolver._psi', props=['C03'],
          returns=mat_len('len(baud_rate)'), pure=True, modifies=[])
 
 # alpha: proved from the scalar loss coefficient (dB/m -> Neper/m); beta2, gamma: assumed pure per-channel vectors
-contract('gnpy.core.elements.Fiber.alpha', props=['C03', 'C05'],
+contract('gnpy.core.elements.Fiber.alpha', name='gnpy.core.elements.Fiber.alpha[call-site summary]', trusted=True, props=[],
+         params={'self': FIBER, 'frequency': vec('n')},
+         ensures=[('alpha_positive', 'implies(self.params._loss_coef[0] > 0, forall(lambda i: at(result, i) > 0, len(frequency)))')],
+         returns=vec_len('len(frequency)'), pure=True,
+         note='ASSUMED at call sites: the attenuation coefficient is a pure per-channel function of the frequencies it is asked for '
+              '(positive for a positive loss coefficient); its value for a scalar loss coefficient is proved below')
+contract('gnpy.core.elements.Fiber.alpha', name='gnpy.core.elements.Fiber.alpha[scalar loss coefficient]', props=['C03', 'C05'], use_at_calls=False,
          params={'self': FIBER, 'frequency': vec('n')},
          ensures=[('neper_per_metre', 'forall(lambda i: at(result, i) * spec_lin2db(exp(1)) == self.params._loss_coef[0], len(frequency))'),
                   ('alpha_positive', 'implies(self.params._loss_coef[0] > 0, forall(lambda i: at(result, i) > 0, len(frequency)))')],
